@@ -332,8 +332,7 @@ def run(ctx) -> None:
     else:
         for fq, _c in all_assert:
             shapes.check_passthrough(ctx, "R1", fq, "vcs.assert_not_dirty", {"filepaths": FILESET, "allow_dirty": "allow_dirty"})
-    shapes.check_passthrough(ctx, "R1", "cli._try_update", "cli._update", {"allow_dirty": "allow_dirty", "cfg": "cfg"})
-    shapes.check_passthrough(ctx, "R1", "cli.update", "cli._try_update", {"allow_dirty": "allow_dirty", "cfg": "cfg"})
+    shapes.check_passthrough(ctx, "R1", "cli.update", "cli._update", {"allow_dirty": "allow_dirty", "cfg": "cfg"})
 
     # ------------------------------------------------------------------ R2
     a_fn = prog.function("vcs.assert_not_dirty")
